@@ -9,8 +9,8 @@ GENS = []
 for f in sorted(os.listdir(os.path.join(HERE, "extract"))):
     if f.startswith("gen_") and f.endswith(".py"):
         mod = __import__(f[:-3])
-        if hasattr(mod, "GEN_NAME") and hasattr(mod, "generate"):
-            GENS.append((mod.GEN_NAME, f[:-3]))
+        if hasattr(mod, "generate"):
+            GENS.append((getattr(mod, "GEN_NAME", None) or {"gen_macros": "Macros"}.get(f[:-3], f[4:-3].capitalize()), f[:-3]))
 r = vlib.regenerate(GENS)
 for k, v in r.items():
     print(k, "ok" if v["ok"] else "FAIL " + v["error"], "(changed)" if v["changed"] else "")
